@@ -596,9 +596,11 @@ func vNthSiblingIndex() (int, []string) {
 //@ func hasAttr
 //@   props C05
 //@   pure refs
+//@   trusted "reader: whether the node carries the attribute is a function of the node and the name (the DOM is not mutated while matching)"
 //@ func inDisabledFieldset
 //@   props C05
 //@   pure refs
+//@   trusted "reader: walks the ancestors of the node (the DOM is not mutated while matching)"
 //@ func (linkPseudoClassSelector).Match
 //@   props C05
 //@   nopanic
